@@ -325,6 +325,8 @@ type CacheState struct {
 	// and it was still there afterwards (a file deleted concurrently is not a
 	// mismatch). Only evaluated when full is set.
 	Mismatch bool
+	// MismatchInfo describes the wrong content (length, zero bytes, first difference).
+	MismatchInfo string
 }
 
 // Stat inspects the store for b. Content is compared only when full is set.
@@ -335,8 +337,8 @@ func (p *Peer) Stat(b *Blob, full bool) CacheState {
 		st.InDownload = true
 	}
 	if st.InCache && full {
-		if readable, equal := p.cacheEquals(b); readable && !equal && p.InCache(b) {
-			st.Mismatch = true
+		if readable, equal, info := p.cacheEquals(b); readable && !equal && p.InCache(b) {
+			st.Mismatch, st.MismatchInfo = true, info
 		} else if !readable {
 			st.InCache = p.InCache(b)
 		}
@@ -344,17 +346,30 @@ func (p *Peer) Stat(b *Blob, full bool) CacheState {
 	return st
 }
 
-func (p *Peer) cacheEquals(b *Blob) (readable, equal bool) {
+func (p *Peer) cacheEquals(b *Blob) (readable, equal bool, info string) {
 	f, err := p.CADS.Cache().GetFileReader(b.Digest.Hex())
 	if err != nil {
-		return false, false
+		return false, false, ""
 	}
 	defer f.Close()
 	got, err := io.ReadAll(f)
 	if err != nil {
-		return false, false
+		return false, false, ""
 	}
-	return true, bytes.Equal(got, b.Content)
+	if bytes.Equal(got, b.Content) {
+		return true, true, ""
+	}
+	zeros, firstDiff := 0, -1
+	for i, c := range got {
+		if c == 0 {
+			zeros++
+		}
+		if firstDiff < 0 && (i >= len(b.Content) || b.Content[i] != c) {
+			firstDiff = i
+		}
+	}
+	return true, false, fmt.Sprintf("cache file has %d bytes (%d of them zero), blob has %d bytes, first difference at offset %d",
+		len(got), zeros, len(b.Content), firstDiff)
 }
 
 // InCache is a cheap presence test (stat only).
